@@ -8,6 +8,7 @@ pub mod c07;
 pub mod c07_sched;
 pub mod c08;
 pub mod c09;
+pub mod c10;
 pub mod c11;
 pub mod c12;
 pub mod c13;
@@ -31,6 +32,7 @@ pub fn run(id: &str, ctx: &Ctx) -> bool {
         "C07" => c07::run(ctx),
         "C08" => c08::run(ctx),
         "C09" => c09::run(ctx),
+        "C10" => c10::run(ctx),
         "C11" => c11::run(ctx),
         "C12" => c12::run(ctx),
         "C13" => c13::run(ctx),
@@ -50,6 +52,7 @@ pub fn replay(id: &str, ctx: &Ctx, case: &Value) -> Option<()> {
         "C07" => c07::check_case(ctx, case),
         "C08" => c08::check_case(ctx, case),
         "C09" => c09::check_case(ctx, case),
+        "C10" => c10::check_case(ctx, case),
         "C11" => c11::check_case(ctx, case),
         "C12" => c12::check_case(ctx, case),
         "C13" => c13::check_case(ctx, case),
